@@ -777,8 +777,8 @@ def fixed_scenarios(prop):
                     "params": [["x", "pk", None]], "ignore": [], "compress": False,
                     "versions": {k_: dict(v_, path="mod_%s.py" % k_) for k_, v_ in V.items()}, "mode": "own",
                     "events": [["define", 1], ["wrap", 1, 0], ["wrap", 1, 1], ["wrap", 1, 2], cl(1, 1), cl(1, 2), cl(1, 2, 1),
-                               ["clearmem", 0], cl(1, 2), cl(1, 2, 2), cl(1, 2, 2),
-                               ["define", 2], ["wrap", 2, 2], ["wrap", 2, 1], cl(2, 2, 2), cl(2, 2), cl(2, 1, 2), cl(2, 1)]})
+                               ["clearmem", 0], cl(1, 1), cl(1, 1, 2), cl(1, 1, 2), cl(1, 1, 1),
+                               ["define", 2], ["wrap", 2, 1], ["wrap", 2, 2], cl(2, 1, 2), cl(2, 1), cl(2, 1, 1), cl(2, 2)]})
         # an edit that keeps the size of the source file, with the modification time restored and linecache warm
         out.append({"id": "fixed-same-size-edit-mtime-restored", "type": "c12", "keep_mtime": True,
                     "params": [["x", "pk", None]], "ignore": [], "compress": False, "versions": V, "mode": "same",
